@@ -427,6 +427,7 @@ type genOpts struct {
 	Names      bool
 	Rich       bool // all literal terminals (C14)
 	User       bool // user-supplied leaf parsers with abort points (C14)
+	Prebuilt   bool // pre-built positioned custom errors in the graph (C14)
 }
 
 type gen struct {
@@ -525,8 +526,11 @@ func (x *gen) node(depth int) int {
 		}
 		if x.o.Names && r.Chance(1, 5) {
 			n.Name = fmt.Sprintf("n%d", idx)
-			if r.Chance(1, 4) {
-				n.Name = "!" + n.Name // a pre-built positioned custom error
+			if x.o.Prebuilt && r.Chance(1, 4) {
+				// a pre-built positioned custom error. Only where a library panic is an
+				// observation (C14): such an error carries a position of its own, and
+				// RightTrim panics on one that lies outside the parsed file
+				n.Name = "!" + n.Name
 			}
 		}
 	}
